@@ -8,6 +8,7 @@
  *   eintr  <fd> off:count ...    `count` EINTR results before the byte at `off` moves
  *   fail   <fd> <off> <errno-name> <sticky|recovers>
  *   log    <path>                append one line per intercepted call
+ *   watch  <fd>                  log the calls on this descriptor without changing them
  *   file   <slot> <path>         slot in 3..10: reads on the descriptor that open()/openat()
  *                                returns for exactly this path follow the plan of <slot>
  *                                (limits/eintr/fail lines may name a slot instead of an fd)
@@ -98,6 +99,10 @@ static void init(void) {
         int u2 = 0;
         if (sscanf(rest, "%d %n", &fd, &u2) < 1 || fd < 0 || fd >= NSLOT) continue;
         rest += u2;
+        if (!strcmp(kw, "watch")) {
+            P[fd].active = 1;
+            continue;
+        }
         if (!strcmp(kw, "file")) {
             char p[900];
             if (fd >= 3 && sscanf(rest, "%899s", p) == 1) slot_path[fd] = strdup(p);
